@@ -271,6 +271,76 @@ def zb(x):
     return z3.BoolVal(bool(x))
 
 
+F_EXP = z3.Function("F_exp", z3.RealSort(), z3.RealSort())
+F_LOG = z3.Function("F_log", z3.RealSort(), z3.RealSort())
+
+
+class ObjNumpy:
+    """stands in for `numpy` / `jax.numpy` in small host-side functions: arrays are numpy object arrays of Sym, exp/log are uninterpreted,
+    sorting and max/min fork on solver-checked comparisons.  Anything not listed raises Inconclusive (never silently concretised)."""
+
+    def __init__(self):
+        import numpy as _onp
+        self._onp = _onp
+
+    def _map(self, x, f):
+        if isinstance(x, self._onp.ndarray):
+            out = self._onp.empty(x.shape, dtype=object)
+            for i in self._onp.ndindex(*x.shape):
+                out[i] = f(x[i])
+            return out
+        return f(x)
+
+    @staticmethod
+    def _s(x):
+        return x if isinstance(x, Sym) else Sym("g", 0, _frac(x))
+
+    def exp(self, x):
+        return self._map(x, lambda e: self._s(e).exp())
+
+    def log(self, x):
+        return self._map(x, lambda e: self._s(e).log())
+
+    def sum(self, x, axis=None):
+        t = 0
+        for e in self._onp.asarray(x, dtype=object).reshape(-1):
+            t = t + e
+        return t
+
+    def _map2(self, a, b, f):
+        if isinstance(a, self._onp.ndarray) or isinstance(b, self._onp.ndarray):
+            return self._onp.frompyfunc(f, 2, 1)(a, b)
+        return f(a, b)
+
+    def maximum(self, a, b):
+        return self._map2(a, b, lambda x, y: x if bool(self._s(x) >= y) else y)
+
+    def minimum(self, a, b):
+        return self._map2(a, b, lambda x, y: x if bool(self._s(x) <= y) else y)
+
+    def abs(self, x):
+        return self._map(x, lambda e: e if bool(self._s(e) >= 0) else -e)
+
+    def argsort(self, x):
+        """stable ascending insertion sort (jnp.argsort is stable); every comparison is a solver-checked decision"""
+        x = list(x)
+        idx = []
+        for i in range(len(x)):
+            k = len(idx)
+            while k > 0 and bool(self._s(x[i]) < x[idx[k - 1]]):
+                k -= 1
+            idx.insert(k, i)
+        return self._onp.array(idx, dtype=int)
+
+    def array(self, x, *a, **k):
+        return self._onp.array(x, dtype=object)
+
+    asarray = array
+
+    def __getattr__(self, n):
+        raise Inconclusive(f"numpy function `{n}` is not modelled by ObjNumpy")
+
+
 class Sym:
     __slots__ = ("kind", "g", "o", "r")
     __array_priority__ = 1000
@@ -503,6 +573,15 @@ class Sym:
 
     __hash__ = None
 
+    def exp(self):
+        """uninterpreted exp with the axiom exp(x) > 0 (added to the path for every application)"""
+        t = F_EXP(self.real_term())
+        eng().assume(t > 0)
+        return Sym("r", r=t)
+
+    def log(self):
+        return Sym("r", r=F_LOG(self.real_term()))
+
     def __format__(self, spec):
         return "<sym>"
 
@@ -518,6 +597,30 @@ class Sym:
 
     def __bool__(self):
         return bool(self != 0)
+
+
+def _broadcasting(opname):
+    import numpy as _onp
+    import operator
+
+    orig = getattr(Sym, opname)
+    refl = {"__add__": operator.add, "__radd__": lambda a, b: b + a, "__sub__": operator.sub, "__rsub__": lambda a, b: b - a, "__mul__": operator.mul,
+            "__rmul__": lambda a, b: b * a, "__truediv__": operator.truediv, "__rtruediv__": lambda a, b: b / a}[opname]
+
+    def op(self, other):
+        if isinstance(other, _onp.ndarray):
+            out = _onp.empty(other.shape, dtype=object)
+            for i in _onp.ndindex(*other.shape):
+                out[i] = refl(self, other[i])
+            return out
+        return orig(self, other)
+
+    op.__name__ = opname
+    return op
+
+
+for _n in ("__add__", "__radd__", "__sub__", "__rsub__", "__mul__", "__rmul__", "__truediv__", "__rtruediv__"):
+    setattr(Sym, _n, _broadcasting(_n))
 
 
 def T(x):
@@ -725,6 +828,12 @@ class Vars:
 
     def integer(self, name, lo=None, hi=None):
         x = self._get(name, lambda: Sym.integer(name))
+        self._bounds(x, lo, hi)
+        return x
+
+    def anyreal(self, name, lo=None, hi=None):
+        """a genuinely real-valued input (z3 Real): for functions without rounding, where no Int/Real mixing arises"""
+        x = self._get(name, lambda: Sym.real(r=z3.Real(name)))
         self._bounds(x, lo, hi)
         return x
 
